@@ -119,6 +119,23 @@ def exc_oracle(prefix, obs):
 # ============================================================================ 1. integrator vs Float model
 
 
+
+def make_verlet(q, dt_fs, steps, apply=True):
+    """a Verlet integrator with time step dt_fs, built in one of three documented ways chosen from the case values:
+    the constructor, assignment of `dt`/`max_steps` on a live object, or the dictionary round trip"""
+    V = q["Verlet"]
+    mode = int(round(abs(dt_fs) * 1e6) + steps) % 3
+    if mode == 0:
+        return V(dt=dt_fs, max_steps=steps, apply_constraints=apply)
+    if mode == 1:
+        v = V(dt=0.37, max_steps=7, apply_constraints=not apply)
+        v.dt = dt_fs * q["fs"]
+        v.max_steps = steps
+        v.apply_constraints = apply
+        return v
+    return V.from_dict(V(dt=dt_fs, max_steps=steps, apply_constraints=apply).to_dict())
+
+
 class VerletModel(common.Suite):
     """real Verlet.integrate(context) on analytic force fields == the Lean Float model"""
 
@@ -139,7 +156,7 @@ class VerletModel(common.Suite):
         atoms = H.make_atoms(case)
         attach_calc(atoms, case["ff"])
         ctx = q["Ctx"](atoms, np.random.default_rng(0))
-        integ = q["Verlet"](dt=case["dt_fs"], max_steps=case["steps"], apply_constraints=case["apply"])
+        integ = make_verlet(q, case["dt_fs"], case["steps"], case["apply"])
         integ.integrate(ctx)
         return {"dt": integ.dt, "q": atoms.get_positions().tolist(), "p": atoms.get_momenta().tolist(),
                 "ncalc": atoms.calc.ncalc}
@@ -220,7 +237,7 @@ class Reversal(common.Suite):
         atoms = H.make_atoms(case)
         attach_calc(atoms, case["ff"])
         ctx = q["Ctx"](atoms, np.random.default_rng(0))
-        integ = q["Verlet"](dt=case["dt_fs"], max_steps=case["steps"], apply_constraints=case["apply"])
+        integ = make_verlet(q, case["dt_fs"], case["steps"], case["apply"])
         q0, p0 = atoms.get_positions(), atoms.get_momenta()
         integ.integrate(ctx)
         q1, p1 = atoms.get_positions(), atoms.get_momenta()
@@ -281,7 +298,7 @@ class EnergyOrder(common.Suite):
             atoms = H.make_atoms(case)
             attach_calc(atoms, case["ff"])
             ctx = q["Ctx"](atoms, np.random.default_rng(0))
-            integ = q["Verlet"](dt=case["dt0_fs"] / 2**lev, max_steps=1)
+            integ = make_verlet(q, case["dt0_fs"] / 2**lev, 1)
             e0 = atoms.get_total_energy()
             worst = 0.0
             for _ in range(case["n0"] * 2**lev):
